@@ -44,8 +44,10 @@ def judge(rec, price, ops):
                 same_price = u[0] == "UQ" or (u[0] in ("UPQ", "RP") and int(u[2]) == price)
                 if same_price:
                     old = before.get(n["id"])
-                    if old:
-                        L(n["id"])[0] += (n["vis"] + n["hid"]) - (old["vis"] + old["hid"])
+                    if old and old["kind"] in "SPI":
+                        # legitimate adjustment: requested display minus the display it replaces
+                        nq = int(u[-1] if u[0] == "UQ" else u[3])
+                        L(n["id"])[0] += nq - old["vis"]
                 else:
                     L(n["id"])[2] += n["vis"] + n["hid"]
         elif op.startswith("REBUILD") or op.startswith("EXT"):
